@@ -351,3 +351,27 @@ pub fn classify(e: &DecodeError) -> Option<SErr> {
         _ => return None,
     })
 }
+
+
+/// A value that differs in memory but not on the wire: an absent optional text given as
+/// `Some("")`. Encoding, measuring and hiding it must give what the canonical value gives.
+pub fn noncanonical_twin(a: &AVP) -> Option<AVP> {
+    match a {
+        AVP::Q931CauseCode(x) if x.advisory.is_none() => {
+            let mut y = x.clone();
+            y.advisory = Some(String::new());
+            Some(AVP::Q931CauseCode(y))
+        }
+        AVP::ResultCode(r) => match &r.error {
+            Some(e) if e.error_message.is_none() => {
+                let mut y = r.clone();
+                if let Some(e2) = y.error.as_mut() {
+                    e2.error_message = Some(String::new());
+                }
+                Some(AVP::ResultCode(y))
+            }
+            _ => None,
+        },
+        _ => None,
+    }
+}
